@@ -370,9 +370,11 @@ def part_history(ctx, rng, ents, gen, cases):
                                             projects=["TRUE"], flags=fl, kinds=[fam]),
                        what="PlotCache(MechIntended), %s family: length <= 4" % fam, workers=8, timeout=1500)
     # the machine distinguishes the mechanisms: the observed one and the pre-5278ad57 line cache break the clauses
-    for mech, kinds in (("MechObserved", ["gdf", "poly", "line"]), ("MechLinesOld", ["line"]), ("MechDataInCache", ["gdf"]), ("MechLineAliased", ["line"])):
+    for mech, kinds in (("MechObserved", ["gdf", "poly", "line"]), ("MechLinesOld", ["line"]), ("MechDataInCache", ["gdf"]), ("MechLineAliased", ["line"]),
+                        ("MechSideLast", ["gdf", "poly"]), ("MechKeyNoProject", ["gdf"])):
         r = ctx.tlc("PlotCache", pc_cfg(mech, maxlen=3, edit=(mech in ("MechObserved", "MechLineAliased")), keep=False, emitfrom=9, invs=["NoBad"],
-                                        proj=["none", "rob180"], eng=["sp"], projects=["TRUE"], flags="FlagsTwo", kinds=kinds),
+                                        proj=["none", "rob180"], eng=["sp"], projects=["TRUE", "FALSE"] if mech == "MechKeyNoProject" else ["TRUE"],
+                                        flags="FlagsTwo", kinds=kinds),
                     what="PlotCache(%s) violates NoBad (expected counterexample)" % mech, workers=4, timeout=600, count=False)
         if r.violated != "NoBad":
             raise Machinery("PlotCache(%s) was expected to violate NoBad, got %s" % (mech, r.violated))
@@ -410,7 +412,7 @@ def part_history(ctx, rng, ents, gen, cases):
                                              proj=["none", "rob180"], eng=["sp"], projects=["TRUE"], flags="FlagsTwo", kinds=["poly"])
         add(hs, cap_clean=25000)
         hs, n_alpha["line3"] = gen_histories(ctx, "LineCollection family, all histories of length 3", maxlen=3, edit=True, emitfrom=3,
-                                             proj=["none", "rob", "rob180"], eng=["sp"], projects=["TRUE"], flags="FlagsThree", kinds=["line"])
+                                             proj=["none", "pc180", "rob180"], eng=["sp"], projects=["TRUE"], flags="FlagsThree", kinds=["line"])
         add(hs)
         nsim = 2000
     else:
@@ -427,7 +429,7 @@ def part_history(ctx, rng, ents, gen, cases):
                                              proj=["none", "rob180"], eng=["sp"], projects=["TRUE"], flags="FlagsTwo", kinds=["poly"])
         add(hs, cap_clean=1500)
         hs, n_alpha["line3"] = gen_histories(ctx, "LineCollection family, all histories of length 3", maxlen=3, edit=True, emitfrom=3,
-                                             proj=["none", "rob180"], eng=["sp"], projects=["TRUE"], flags="FlagsThree", kinds=["line"])
+                                             proj=["none", "pc180"], eng=["sp"], projects=["TRUE"], flags="FlagsThree", kinds=["line"])
         add(hs)
         nsim = 120
     hs, _ = gen_histories(ctx, "random behaviours of length 5 (-simulate)", maxlen=5, edit=True, emitfrom=5, simulate="num=%d" % (nsim // 2), depth=6,
